@@ -194,18 +194,28 @@ theorem joinwg_delivery (c : JoinWG.Cfg) (s : JoinWG.State) (hr : (JoinWG.lts c)
 theorem joinwg_exactly_once (c : JoinWG.Cfg) (s : JoinWG.State) (hr : (JoinWG.lts c).Reachable s) :
     (∀ i, i < c.n → ∃ rest, c.items i = gotOf s.got i ++ rest) ∧
     (∀ p, p ∈ s.got → p.1 < c.n) ∧
-    (JoinWG.final s → ∀ i, i < c.n → gotOf s.got i = c.items i) := by
+    (JoinWG.final s → ∀ i, i < c.n → c.seen i = false → gotOf s.got i = c.items i) := by
   have hi := (JoinWG.inv_reachable c s hr).1
   refine ⟨?_, JoinWG.tags_reachable c s hr, ?_⟩
   · intro i hin
     exact ⟨_, by rw [hi.deliv i hin]; simp only [List.append_assoc]; rfl⟩
-  · intro hf i hin
+  · intro hf i hin hns
     have hpc := hi.outCl.mp (hi.seenC hf)
-    have hfin := hi.allFin (Or.inr hpc) i hin
+    have hfin : s.st i = .finished := by
+      rcases hi.allFin (Or.inr hpc) i hin with h | h
+      · exact h
+      · have := JoinWG.skipSeen_reachable c s hr i h; rw [hns] at this; cases this
     obtain ⟨hcl, hb⟩ := hi.drained i (Or.inr hfin)
     have hd := hi.deliv i hin
     rw [hfin, hb, hi.closedPend i hcl] at hd
     simpa [JoinWG.held] using hd.symm
+
+/-- the `listening` bookkeeping: a position is skipped only if its channel already occurred at an earlier
+position; with distinct inputs the skip never fires (the model then is the one without the bookkeeping) -/
+theorem joinwg_listening (c : JoinWG.Cfg) (s : JoinWG.State) (hr : (JoinWG.lts c).Reachable s) :
+    (∀ i, s.st i = .skipped → c.seen i = true) ∧
+    ((∀ i, c.seen i = false) → ∀ i, s.st i ≠ .skipped) :=
+  ⟨JoinWG.skipSeen_reachable c s hr, fun hd => JoinWG.distinct_never_skips c hd s hr⟩
 
 /-- the WaitGroup counter always equals the number of live forwarders (+1 between `Add` and `go`):
 this is what makes `Wait` a sound barrier, and it rests on `wait.Add(1)` preceding the `go` -/
@@ -215,7 +225,7 @@ theorem joinwg_waitgroup (c : JoinWG.Cfg) (s : JoinWG.State) (hr : (JoinWG.lts c
 
 theorem joinwg_no_send_on_closed (c : JoinWG.Cfg) (s : JoinWG.State) (hr : (JoinWG.lts c).Reachable s) :
     s.panicked = false ∧
-    (s.outClosed = true → ∀ i, i < c.n → s.st i = .finished) ∧
+    (s.outClosed = true → ∀ i, i < c.n → s.st i = .finished ∨ s.st i = .skipped) ∧
     (∀ i, (JoinWG.lts c).step s (.fSend i) = none) := by
   have hi := JoinWG.inv_reachable c s hr
   refine ⟨hi.1.np, fun h => hi.1.allFin (Or.inr (hi.1.outCl.mp h)), ?_⟩
@@ -231,7 +241,8 @@ theorem joinwg_no_send_on_closed (c : JoinWG.Cfg) (s : JoinWG.State) (hr : (Join
 
 theorem joinwg_close_after_drained (c : JoinWG.Cfg) (s : JoinWG.State) (hr : (JoinWG.lts c).Reachable s) :
     (s.outClosed = true → s.pc = .fin ∧ s.k = c.n ∧ s.orem = 0 ∧ s.obuf = 0 ∧
-        ∀ i, i < c.n → (s.ch i).closed = true ∧ (s.ch i).buf = [] ∧ s.pend i = [] ∧ s.st i = .finished) ∧
+        ∀ i, i < c.n → c.seen i = false →
+          (s.ch i).closed = true ∧ (s.ch i).buf = [] ∧ s.pend i = [] ∧ s.st i = .finished) ∧
     (JoinWG.final s → s.outClosed = true) := by
   have hi := (JoinWG.inv_reachable c s hr).1
   refine ⟨?_, fun hf => hi.seenC hf⟩
@@ -242,8 +253,11 @@ theorem joinwg_close_after_drained (c : JoinWG.Cfg) (s : JoinWG.State) (hr : (Jo
   simp only [hpc] at ho
   simp at ho
   refine ⟨hpc, hk, by omega, by omega, ?_⟩
-  intro i hin
-  have hfin := hi.allFin (Or.inr hpc) i hin
+  intro i hin hns
+  have hfin : s.st i = .finished := by
+    rcases hi.allFin (Or.inr hpc) i hin with h | h
+    · exact h
+    · have := JoinWG.skipSeen_reachable c s hr i h; rw [hns] at this; cases this
   obtain ⟨hcl, hb⟩ := hi.drained i (Or.inr hfin)
   exact ⟨hcl, hb, hi.closedPend i hcl, hfin⟩
 
@@ -253,14 +267,15 @@ theorem joinwg_progress (c : JoinWG.Cfg) (s : JoinWG.State) (hr : (JoinWG.lts c)
 
 theorem joinwg_terminates_clean (c : JoinWG.Cfg) (s : JoinWG.State) (hr : (JoinWG.lts c).Reachable s)
     (hf : JoinWG.final s) :
-    s.pc = .fin ∧ s.wg = 0 ∧ (∀ i, i < c.n → s.st i = .finished) ∧ (∀ i, c.n ≤ i → s.st i = .absent) := by
+    s.pc = .fin ∧ s.wg = 0 ∧ (∀ i, i < c.n → s.st i = .finished ∨ s.st i = .skipped) ∧
+    (∀ i, c.n ≤ i → s.st i = .absent) := by
   have hi := (JoinWG.inv_reachable c s hr).1
   have hpc := hi.outCl.mp (hi.seenC hf)
   have hall := hi.allFin (Or.inr hpc)
   have hk := hi.waitK (Or.inr (Or.inr hpc))
   refine ⟨hpc, ?_, hall, fun i h => (hi.abs i).mpr (by omega)⟩
   have hw := hi.wgc
-  rw [count_all_false _ c.n (fun i hin => by rw [hall i hin]; rfl), hpc] at hw
+  rw [count_all_false _ c.n (fun i hin => by rcases hall i hin with h | h <;> rw [h] <;> rfl), hpc] at hw
   simpa using hw
 
 /-- termination under every schedule (both forms): each step strictly decreases `JoinWG.measure` -/
@@ -274,9 +289,9 @@ theorem joinwg_terminates (c : JoinWG.Cfg) (tr : List JoinWG.Label) (s : JoinWG.
 /-- chan-of-chan form, two inner channels (one unbuffered, one buffered), a complete run in which the
 second channel's item overtakes the first's -/
 example : ∃ s, (JoinWG.lts { n := 2, items := fun i => if i = 0 then [10] else [20], cap := fun i => i,
-                             chanForm := true, ocap := 0 }).run
+                             chanForm := true, ocap := 0, seen := fun _ => false }).run
       (JoinWG.init { n := 2, items := fun i => if i = 0 then [10] else [20], cap := fun i => i,
-                     chanForm := true, ocap := 0 })
+                     chanForm := true, ocap := 0, seen := fun _ => false })
       [.pSend 1, .pClose 1, .oSend, .spAdd, .spGo, .oSend, .spAdd, .spGo, .oClose, .spNext,
        .fRecv 1, .cTake 1, .pSend 0, .cTake 0, .fRecv 1, .fDone 1, .pClose 0, .fRecv 0, .fDone 0,
        .spWait, .spClose, .cSeeClose] = some s ∧
@@ -284,11 +299,31 @@ example : ∃ s, (JoinWG.lts { n := 2, items := fun i => if i = 0 then [10] else
   refine ⟨_, rfl, ?_, ?_, ?_⟩ <;> decide
 
 /-- slice form, mid-flight: both forwarders spawned, the WaitGroup counter is 2, the spawner waits -/
-example : ∃ s, (JoinWG.lts { n := 2, items := fun _ => [1], cap := fun _ => 0, chanForm := false, ocap := 0 }).run
-      (JoinWG.init { n := 2, items := fun _ => [1], cap := fun _ => 0, chanForm := false, ocap := 0 })
+example : ∃ s, (JoinWG.lts { n := 2, items := fun _ => [1], cap := fun _ => 0, chanForm := false, ocap := 0, seen := fun _ => false }).run
+      (JoinWG.init { n := 2, items := fun _ => [1], cap := fun _ => 0, chanForm := false, ocap := 0, seen := fun _ => false })
       [.spAdd, .spGo, .spAdd, .spGo, .pSend 1] = some s ∧
     s.wg = 2 ∧ s.pc = .wait ∧ s.st 1 = .send 1 := by
   refine ⟨_, rfl, ?_, ?_, ?_⟩ <;> decide
+
+/-- slice `[a, b, a]`: position 2 repeats channel a and is skipped (no Add, no forwarder); the items of a are
+delivered in order by the single forwarder of position 0; the WaitGroup counts the two forwarders started -/
+example : ∃ s, (JoinWG.lts { n := 3, items := fun i => if i = 0 then [1, 2] else if i = 1 then [7] else [],
+                             cap := fun _ => 0, chanForm := false, ocap := 0, seen := fun i => i == 2 }).run
+      (JoinWG.init { n := 3, items := fun i => if i = 0 then [1, 2] else if i = 1 then [7] else [],
+                     cap := fun _ => 0, chanForm := false, ocap := 0, seen := fun i => i == 2 })
+      [.spAdd, .spGo, .spAdd, .spGo, .pSend 0, .cTake 0, .pSend 1, .pSend 0, .cTake 0, .cTake 1, .pClose 0, .pClose 1,
+       .fRecv 0, .fRecv 1, .fDone 1, .fDone 0, .spWait, .spClose, .cSeeClose] = some s ∧
+    s.got = [(0, 1), (0, 2), (1, 7)] ∧ s.st 2 = .skipped ∧ s.seen = true ∧ s.wg = 0 := by
+  refine ⟨_, rfl, ?_, ?_, ?_, ?_⟩ <;> decide
+
+/-- chan-of-chan form, the outer channel carries channel a twice: the second occurrence is received and skipped -/
+example : ∃ s, (JoinWG.lts { n := 2, items := fun i => if i = 0 then [5] else [], cap := fun _ => 1,
+                             chanForm := true, ocap := 1, seen := fun i => i == 1 }).run
+      (JoinWG.init { n := 2, items := fun i => if i = 0 then [5] else [], cap := fun _ => 1,
+                     chanForm := true, ocap := 1, seen := fun i => i == 1 })
+      [.oSend, .spNext, .oSend, .spAdd, .spGo, .spNext, .oClose, .spNext] = some s ∧
+    s.pc = .wait ∧ s.st 1 = .skipped ∧ s.k = 2 ∧ s.wg = 1 := by
+  refine ⟨_, rfl, ?_, ?_, ?_, ?_⟩ <;> decide
 
 /-! ## Join with select: `deriveJoin(c0, c1, …)` -/
 
@@ -377,15 +412,20 @@ theorem pipeline_delivery (c : Pipeline.Cfg) (s : Pipeline.State) (hr : (Pipelin
 theorem pipeline_exactly_once (c : Pipeline.Cfg) (s : Pipeline.State) (hr : (Pipeline.lts c).Reachable s) :
     (∀ i, i < c.n → ∃ rest, c.items i = gotOf s.j.got i ++ rest) ∧
     (∀ p, p ∈ s.j.got → p.1 < c.n) ∧
-    (Pipeline.final s → ∀ i, i < c.n → gotOf s.j.got i = c.items i) :=
-  joinwg_exactly_once (Pipeline.jcfg c) s.j (Pipeline.proj_reachable c s hr)
+    (Pipeline.final s → ∀ i, i < c.n → gotOf s.j.got i = c.items i) := by
+  have h := joinwg_exactly_once (Pipeline.jcfg c) s.j (Pipeline.proj_reachable c s hr)
+  exact ⟨h.1, h.2.1, fun hf i hin => h.2.2 hf i hin rfl⟩
 
 theorem pipeline_no_send_on_closed (c : Pipeline.Cfg) (s : Pipeline.State) (hr : (Pipeline.lts c).Reachable s) :
     s.j.panicked = false ∧
     (s.j.outClosed = true → ∀ i, i < c.n → s.j.st i = .finished) ∧
     (s.j.oclosed = true ↔ s.mpc = .done) := by
   have h := joinwg_no_send_on_closed (Pipeline.jcfg c) s.j (Pipeline.proj_reachable c s hr)
-  exact ⟨h.1, h.2.1, (Pipeline.pinv_reachable c s hr).1.l5⟩
+  have hns := JoinWG.distinct_never_skips (Pipeline.jcfg c) (fun _ => rfl) s.j (Pipeline.proj_reachable c s hr)
+  refine ⟨h.1, fun hc i hin => ?_, (Pipeline.pinv_reachable c s hr).1.l5⟩
+  rcases h.2.1 hc i hin with h' | h'
+  · exact h'
+  · exact absurd h' (hns i)
 
 theorem pipeline_close_after_drained (c : Pipeline.Cfg) (s : Pipeline.State) (hr : (Pipeline.lts c).Reachable s) :
     (s.j.outClosed = true → s.mpc = .done ∧ s.bclosed = true ∧ s.bbuf = 0 ∧ s.brem = 0 ∧ s.created = c.n ∧
@@ -403,7 +443,7 @@ theorem pipeline_close_after_drained (c : Pipeline.Cfg) (s : Pipeline.State) (hr
   obtain ⟨hbc, hbb⟩ := hl.l4 (Or.inr hm)
   have hbr := hl.l3 hbc
   have h1 := hl.l1
-  exact ⟨hm, hbc, hbb, hbr, by omega, hall⟩
+  exact ⟨hm, hbc, hbb, hbr, by omega, fun i hin => hall i hin rfl⟩
 
 theorem pipeline_progress (c : Pipeline.Cfg) (s : Pipeline.State) (hr : (Pipeline.lts c).Reachable s)
     (hnf : ¬ Pipeline.final s) : (Pipeline.lts c).Enabled s :=
@@ -414,7 +454,11 @@ theorem pipeline_terminates_clean (c : Pipeline.Cfg) (s : Pipeline.State) (hr : 
     s.mpc = .done ∧ s.j.pc = .fin ∧ s.j.wg = 0 ∧ (∀ i, i < c.n → s.j.st i = .finished) := by
   have hj := joinwg_terminates_clean (Pipeline.jcfg c) s.j (Pipeline.proj_reachable c s hr) hf
   have hc := pipeline_close_after_drained c s hr
-  exact ⟨(hc.1 (hc.2 hf)).1, hj.1, hj.2.1, hj.2.2.1⟩
+  have hns := JoinWG.distinct_never_skips (Pipeline.jcfg c) (fun _ => rfl) s.j (Pipeline.proj_reachable c s hr)
+  refine ⟨(hc.1 (hc.2 hf)).1, hj.1, hj.2.1, fun i hin => ?_⟩
+  rcases hj.2.2.1 i hin with h' | h'
+  · exact h'
+  · exact absurd h' (hns i)
 
 /-- termination under every schedule: each step strictly decreases `Pipeline.measure` -/
 theorem pipeline_terminates (c : Pipeline.Cfg) (tr : List Pipeline.Label) (s : Pipeline.State)
